@@ -170,6 +170,19 @@ class Sym:
         self.lsym = "C" if a.name == "skip" else "L"
         self.notes = []
 
+    def on_path(self, x):
+        """resolve a phi (a local assigned in several branches) to the alternative assigned on the current path."""
+        for _ in range(6):
+            if x[0] == "phi" and len(x) > 2 and getattr(self, "path_blocks", None):
+                alts = [alt for alt, loc in zip(x[1], x[2]) if loc is not None and loc[0] in self.path_blocks]
+                if len(alts) == 1:
+                    x = alts[0]
+                    while x[0] in ("ref", "deref", "cast"):
+                        x = x[1]
+                    continue
+            break
+        return x
+
     def is_old(self, x):
         """the previous limit / count in an update function: the result of mem::replace / Option::replace on the field"""
         if x[0] == "call" and ecall_matches(x, r"^std::mem::replace$") and x[3]:
@@ -208,6 +221,7 @@ class Sym:
         x = e
         while x[0] in ("ref", "deref", "cast"):
             x = x[1]
+        x = self.on_path(x)
         if x[0] == "local":   # provenance expression truncated by depth: continue from that local
             return self.vlen(self.b.expr_of_local(x[1]), depth + 1)
         if self.is_buf(x):
@@ -256,6 +270,7 @@ class Sym:
         x = e
         while x[0] in ("ref", "deref", "cast"):
             x = x[1]
+        x = self.on_path(x)
         k = x[0]
         if k == "local":
             return self.term(self.b.expr_of_local(x[1]), depth + 1)
@@ -314,6 +329,87 @@ class Sym:
             raise Unknown("range")
         raise Unknown("iterator " + n.split("::")[-1])
 
+
+    # -- refills: where in the (post-diff) buffer does an emitted item come from? ------------------------------
+    def refill_get(self, e):
+        """index term of `buffered_vector.get(i)` when the value expression is a (clone of a) looked-up buffer item."""
+        gets = find_all(e, lambda y: y[0] == "call" and ecall_matches(y, r"GenericVector::<.*>::get$") and len(y[3]) == 2 and self.is_buf(strip(y[3][0])))
+        if len(gets) != 1:
+            return None
+        return self.term(gets[0][3][1])
+
+    def refill_iter(self, e, depth=0):
+        """(first position, direction, length) of an iterator chain over the buffer, or None when it is not one."""
+        x = strip(e, through_calls=False)
+        if x[0] == "local" and depth <= 12:
+            return self.refill_iter(self.b.expr_of_local(x[1]), depth + 1)
+        if x[0] != "call" or not isinstance(x[1], str) or depth > 12:
+            return None
+        n = x[1]
+        if re.search(r"GenericVector::<.*>::iter$", n) and self.is_buf(strip(x[3][0])):
+            return (ZERO, 1, self.nprime)
+        if re.search(r"IntoIterator>?::into_iter$|Iterator>?::(cloned|copied|map|by_ref|inspect|peekable)$", n) and x[3]:
+            return self.refill_iter(x[3][0], depth + 1)
+        if re.search(r"Iterator>?::rev$", n):
+            r = self.refill_iter(x[3][0], depth + 1)
+            if r is None:
+                return None
+            f, d, ln = r
+            last = ("add", f, ("sub", ln, ONE)) if d == 1 else ("sub", f, ("sub", ln, ONE))
+            return (last, -d, ln)
+        if re.search(r"Iterator>?::skip$", n):
+            r = self.refill_iter(x[3][0], depth + 1)
+            if r is None:
+                return None
+            f, d, ln = r
+            k = self.term(x[3][1])
+            return (("add", f, k) if d == 1 else ("sub", f, k), d, ("sat", ln, k))
+        if re.search(r"Iterator>?::take$", n):
+            r = self.refill_iter(x[3][0], depth + 1)
+            if r is None:
+                return None
+            f, d, ln = r
+            return (f, d, ("min", ln, self.term(x[3][1])))
+        return None
+
+    def refill_vec(self, e, depth=0):
+        """(first position, length) of a vector expression that is a slice of the buffer (`buf.skip(k)`, `buf.clone()`,
+        the adapter's cutting helper applied to it, a collected iterator chain over it)."""
+        x = e
+        while x[0] in ("ref", "deref", "cast"):
+            x = x[1]
+        if x[0] == "local" and depth <= 12:
+            return self.refill_vec(self.b.expr_of_local(x[1]), depth + 1)
+        if self.is_buf(x):
+            return (ZERO, self.nprime)
+        if x[0] != "call" or not isinstance(x[1], str) or depth > 12:
+            return None
+        if ecall_matches(x, r"Clone>?::clone$|Deref>?::deref$") and x[3]:
+            return self.refill_vec(x[3][0], depth + 1)
+        if re.search(r"GenericVector::<.*>::skip$", x[1]):
+            r = self.refill_vec(x[3][0], depth + 1)
+            if r is None:
+                return None
+            k = self.term(x[3][1])
+            return (("add", r[0], ("min", k, r[1])), ("sat", r[1], k))
+        if ecall_matches(x, r"Iterator>?::collect$|FromIterator<.*>>?::from_iter$") and x[3]:
+            r = self.refill_iter(x[3][0])
+            if r is None:
+                return None
+            f, d, ln = r
+            if d == 1:
+                return (f, ln)
+            return None   # collected back to front: judged by R12.3-like order rules, not here
+        c = self.local_helper(x)
+        if c is not None and len(x[3]) == 2:
+            r = self.refill_vec(x[3][0], depth + 1)
+            if r is None:
+                return None
+            k = self.term(x[3][1])
+            if self.a.name == "skip":     # skeep: drops the first k
+                return (("add", r[0], ("min", k, r[1])), ("sat", r[1], k))
+            return (("add", r[0], ("sat", r[1], k)), ("min", r[1], k))   # truncate_from_end: keeps the last k
+        return None
 
     # -- conditions ----------------------------------------------------------
     def fact_constraints(self, fct):
@@ -407,6 +503,45 @@ NPRIME = {"Append": lambda: sym("P") + sym("A"), "Clear": lambda: ZERO, "PushFro
 # what the source guarantees about the incoming diff (ObservableVector's own no-op guards and bounds checks; C05 / C17)
 PRE = {"Insert": lambda: [sym("P") - sym("I")], "Set": lambda: [sym("P") - sym("I") - ONE], "Remove": lambda: [sym("P") - sym("I") - ONE],
        "PopFront": lambda: [sym("P") - ONE], "PopBack": lambda: [sym("P") - ONE], "Truncate": lambda: [sym("P") - sym("K") - ONE]}
+
+
+def refill_checks_for(S, a, ev, count, payload, cur):
+    """[(lhs term, rhs term, guard constraints [(op, ta, tb)], what)]: where a refilled item must come from. The view is a prefix
+    of the buffer for Head and a suffix for Tail and Skip, so an item entering at the back of a Head view sits at index `cur`
+    (the running view length), an item entering at the front of a Tail / Skip view at index N' - cur - 1."""
+    out = []
+    try:
+        if ev in ("PushBack", "PushFront") and "value" in payload and "__iter" not in payload:
+            idx = S.refill_get(payload["value"])
+            if idx is not None:
+                if a.name == "head" and ev == "PushBack":
+                    out.append((idx, cur, [], "looked-up item of the PushBack refill"))
+                elif a.name in ("tail", "skip") and ev == "PushFront":
+                    out.append((("add", idx, ("add", cur, ONE)), S.nprime, [], "looked-up item of the PushFront refill"))
+        elif ev in ("PushBack", "PushFront") and "__iter" in payload:
+            r = S.refill_iter(payload["__iter"])
+            if r is not None:
+                f, d, ln = r
+                guard = [("Ge", count, ONE)]
+                if a.name == "head" and ev == "PushBack" and d == 1:
+                    out.append((f, cur, guard, "first item of the PushBack group"))
+                elif a.name in ("tail", "skip") and ev == "PushFront" and d == -1:
+                    out.append((("add", f, ("add", cur, ONE)), S.nprime, guard, "first item of the PushFront group"))
+                elif (a.name == "head" and ev == "PushBack") or (a.name in ("tail", "skip") and ev == "PushFront"):
+                    out.append((ZERO, ONE, guard, "direction of the %s group (items must enter nearest first)" % ev))
+        elif ev == "Append" and "values" in payload:
+            r = S.refill_vec(payload["values"])
+            if r is not None:
+                f, ln = r
+                guard = [("Ge", ln, ONE)]
+                if a.name == "head":
+                    out.append((f, cur, guard, "first item of the appended slice"))
+                else:
+                    # appended behind a suffix view: only right when the slice ends at the end of the buffer
+                    out.append((("add", f, ln), S.nprime, guard, "end of the appended slice"))
+    except Unknown:
+        pass
+    return out
 
 
 def view_term(a, n):
@@ -514,6 +649,15 @@ class PathEval:
         out = []
         for i, blk in enumerate(self.path):
             if blk not in evs:
+                t_ = b.term(blk)
+                if t_["k"] == "call":
+                    for a_ in t_["args"]:
+                        if a_["k"] in ("move", "copy") and not a_["place"]["proj"]:
+                            ty_ = str(b.locals[a_["place"]["l"]]["ty"])
+                            if ty_.startswith("&mut ") and "VectorDiff<" in ty_ and re.search(r"SmallVec<|ArrayVec<|Vec<", ty_):
+                                nm_ = (t_.get("callee") or "?").split("::")[-1]
+                                if nm_ not in ("new", "len", "is_empty", "deref", "deref_mut", "as_mut", "borrow_mut", "reserve", "with_capacity"):
+                                    raise Unknown("the output buffer is handed to `%s`" % nm_)
                 continue
             kind, vs, e, cnt, term = evs[blk]
             vs = list(dict.fromkeys(vs))
@@ -551,6 +695,9 @@ class PathEval:
             vl = None
             if v in ("Append", "Reset"):
                 vl = self.payload_vec_len(agg_loc, i)
+            if kind != "push":
+                payload = dict(payload)
+                payload["__iter"] = e[3][0] if (e[0] == "call" and e[1] == "loop-group") else e
             out.append((v, count, payload, blk, vl))
         return out
 
@@ -588,10 +735,19 @@ def analyse_arm(ctx, a, b, sw, v, target, evs, base_facts):
             base_alts = new
         except Unknown:
             base_complete = False
-    for path in arm_paths(b, target):
+    # the code before the dispatch may compute locals in branches (`let view_start = if full { prev - limit } else { 0 }`): walk
+    # entry -> dispatch -> arm as one path so that such values and their conditions are resolved on the path
+    prefixes = paths_between(b, 0, sw, limit=60) if sw != 0 else [(0,)]
+    if len(prefixes) > 1:
+        base_alts, base_complete = [[]], True
+        full_paths = [tuple(pre) + tuple(ap) for pre in prefixes for ap in arm_paths(b, target)]
+    else:
+        full_paths = [tuple(ap) for ap in arm_paths(b, target)]
+    for path in full_paths:
         complete = base_complete
         alts = [list(x) for x in base_alts]
         notes = []
+        S.path_blocks = set(path) | set(b.dominators().get(sw, ()))
         try:
             for s_, t_ in zip(path, path[1:]):
                 for fct in conds.edge_facts(b, s_, t_):
@@ -626,7 +782,9 @@ def analyse_arm(ctx, a, b, sw, v, target, evs, base_facts):
         cur = v0
         und = None
         idx_checks = []
+        refills = []
         for (ev, count, payload, blk, vl) in ems:
+            refills += refill_checks_for(S, a, ev, count, payload, cur)
             if ev in ("PushFront", "PushBack", "Insert"):
                 if ev == "Insert" and "index" in payload:
                     idx_checks.append(("Le", payload["index"], cur, ev, blk))
@@ -701,7 +859,7 @@ def analyse_arm(ctx, a, b, sw, v, target, evs, base_facts):
                     break
             if verdict == "VIOLATED":
                 break
-        results.append((verdict, path, detail, {"run": run, "alts": alts, "base": base, "complete": complete, "idx": idx_checks, "cases": n_cases, "S": S, "symbols": symbols}))
+        results.append((verdict, path, detail, {"run": run, "alts": alts, "base": base, "complete": complete, "idx": idx_checks, "refill": refills, "cases": n_cases, "S": S, "symbols": symbols, "path_blocks": set(S.path_blocks)}))
     return results
 
 
@@ -721,8 +879,11 @@ def collect_events(b):
 
 def run_adapter(ctx, a, rule_balance="R09.12", rule_index="R09.13", rule_bound="R15.6", want=("balance", "index", "bound")):
     f = a.translator
-    b = f.built
+    b = inl(ctx.facts, f, tag="balance", desugar=True) or f.built   # private helpers (e.g. an extracted refill block) are analysed in place
     sws = diff_switches(b)
+    if not sws:
+        b = f.built
+        sws = diff_switches(b)
     if not sws:
         return 0
     sw, info = sws[0]
@@ -750,13 +911,13 @@ def run_adapter(ctx, a, rule_balance="R09.12", rule_index="R09.13", rule_bound="
                           "%d path(s), %d feasible case(s): view(P) + effects of the emitted diffs = view(N') in every case (%s)" % (
                               len(res), sum(r[3]["cases"] for r in res), "; ".join(sorted({r[2] for r in res}))[:200]))
         # index applicability and running bound on the decided paths
-        for rule, kind in ((rule_index, "index"), (rule_bound, "bound")):
-            if kind not in want or (kind == "bound" and a.name == "skip"):
+        for rule, kind in ((rule_index, "index"), (rule_bound, "bound"), ("R09.15", "refill")):
+            if (kind not in want and not (kind == "refill" and "index" in want)) or (kind == "bound" and a.name == "skip"):
                 continue
             status, detail = check_prefixes(a, b, res, kind)
             if status is None:
                 continue
-            key = ("emitted-index-in-view:%s" if kind == "index" else "running-length<=limit:%s") % v
+            key = {"index": "emitted-index-in-view:%s", "bound": "running-length<=limit:%s", "refill": "refill-position:%s"}[kind] % v
             ctx.__dict__.setdefault("balance_verdicts", {})[(a.name, kind, v)] = status
             if status == "VIOLATED":
                 ctx.violated(rule, f, key, where, "%s translator, arm %s: %s" % (a.name, v, detail))
@@ -776,6 +937,8 @@ def check_prefixes(a, b, res, kind):
             und = und or detail
             continue
         S = info["S"]
+        if "path_blocks" in info:
+            S.path_blocks = info["path_blocks"]   # expressions are resolved on the path they were collected on
         symbols = info["symbols"]
         checks = []
         if kind == "index":
@@ -802,13 +965,25 @@ def check_prefixes(a, b, res, kind):
                             continue
                         return "VIOLATED", "for %s the computation of the emitted %s.index subtracts below zero (a panic in debug builds, a huge index in release builds): the translated position lies before the start of the view" % (
                             ", ".join("%s=%d" % (k_, w[k_]) for k_ in sorted(w)), ev)
+        elif kind == "refill":
+            for lhs_, rhs_, guard_, what_ in info.get("refill", []):
+                checks.append(("Eq", lhs_, rhs_, what_, guard_))
         else:
             for ev, cur in info["run"][1:]:
                 checks.append(("Le", cur, sym("L"), "length after %s" % ev))
-        for op, lhs, rhs, what in checks:
+        for chk in checks:
+            op, lhs, rhs, what = chk[:4]
+            guard_alts = [[]]
+            if len(chk) > 4 and chk[4]:
+                try:
+                    guard_alts = expand(chk[4])
+                except Unknown:
+                    und = und or "guard of %s not understood" % what
+                    continue
             any_checked = True
             for bs in info["alts"]:
-                cons0 = info["base"] + bs
+              for ga in guard_alts:
+                cons0 = info["base"] + bs + ga
                 if feasible(cons0) is False:
                     continue
                 for pc, lv in pieces(lhs):
@@ -819,6 +994,24 @@ def check_prefixes(a, b, res, kind):
                         if lv is None or rv is None:
                             und = und or "opaque %s" % what
                             continue
+                        if op == "Eq":
+                            d_ = lv - rv
+                            if d_.is_const() and d_.c == 0:
+                                continue
+                            more_, less_ = feasible(cons + [d_ - ONE]), feasible(cons + [-d_ - ONE])
+                            if more_ is False and less_ is False:
+                                continue
+                            if not info["complete"] or more_ is None or less_ is None:
+                                und = und or "%s not settled" % what
+                                continue
+                            w = witness(cons + ([d_ - ONE] if more_ else [-d_ - ONE]), symbols | set(lv.t) | set(rv.t))
+                            if w is None:
+                                und = und or "%s: no small witness" % what
+                                continue
+                            lval = lv.c + sum(c * w.get(s_, 0) for s_, c in lv.t.items())
+                            rval = rv.c + sum(c * w.get(s_, 0) for s_, c in rv.t.items())
+                            return "VIOLATED", "for %s the %s is taken from the wrong place of the buffer (position expression evaluates to %d where the item entering the view is at %d): the view gets the right number of items but not the right ones" % (
+                                ", ".join("%s=%d" % (k_, w[k_]) for k_ in sorted(w)), what, lval, rval)
                         bad = (lv - rv) if op == "Lt" else (lv - rv - ONE)   # violation: lhs >= rhs (Lt) / lhs > rhs (Le)
                         fb = feasible(cons + [bad])
                         if fb is False:
@@ -837,11 +1030,11 @@ def check_prefixes(a, b, res, kind):
                                 ", ".join("%s=%d" % (k_, w[k_]) for k_ in sorted(w)), what, lval, rval)
                         return "VIOLATED", "for %s the view holds %d item(s) (%s) with a limit of %d: the bound is exceeded between two diffs" % (
                             ", ".join("%s=%d" % (k_, w[k_]) for k_ in sorted(w)), lval, what, rval)
-    if not any_checked and kind == "index":
+    if not any_checked and kind in ("index", "refill"):
         return None, None
     if und:
         return "UNDECIDED", und[:200]
-    return "HOLDS", ("every emitted index lies inside the view it is applied to" if kind == "index" else "after every emitted diff the view holds at most `limit` items")
+    return "HOLDS", {"index": "every emitted index lies inside the view it is applied to", "refill": "every refilled item is taken from the buffer position adjacent to the view", "bound": "after every emitted diff the view holds at most `limit` items"}[kind]
 
 
 # ---------------------------------------------------------------------------
@@ -888,6 +1081,11 @@ def _ret_emissions(S, b, path):
             if not out:
                 raise Unknown("vec! without elements")
             return out
+        if re.search(r"vec::from_elem$", n) and len(inner[3]) == 2:
+            aggs = find_all(inner[3][0], is_diff)
+            if len(aggs) == 1 and aggs[0][3] not in ("Append", "Reset", "Truncate", "Insert", "Set", "Remove"):
+                return [(aggs[0][3], S.term(inner[3][1]), {}, None)]
+            raise Unknown("vec![d; n] of %s" % [a_[3] for a_ in aggs])
         if re.search(r"Iterator>?::collect$|FromIterator<.*>>?::from_iter$", n) and inner[3]:
             it = inner[3][0]
             cnt = S.iter_len(it)
@@ -902,7 +1100,7 @@ def _ret_emissions(S, b, path):
             vs = list(dict.fromkeys(vs))
             if len(vs) != 1 or vs[0] in ("Append", "Reset", "Truncate", "Insert", "Set", "Remove"):
                 raise Unknown("collected group of %s" % vs)
-            return [(vs[0], cnt, {}, None)]
+            return [(vs[0], cnt, {"__iter": it}, None)]
     raise Unknown("returned container " + fmt(inner, 3))
 
 
@@ -910,17 +1108,19 @@ def run_update(ctx, a, rule="R09.12"):
     f = a.update
     if f is None or not f.built:
         return 0
-    b = f.built
+    b = inl(ctx.facts, f, tag="balance", desugar=True) or f.built
     N, O = sym("N"), sym("O")
     lsym = "C" if a.name == "skip" else "L"
     S = Sym(a, b, "update", N, mode="update")
     symbols = {"N", "O", lsym, "HASOLD"}
     base = [sym(x) for x in symbols] + [ONE - sym("HASOLD")]
     results = []
+    refill_viol, refill_und, refill_ok = [], [], [0]
     for path in arm_paths(b, 0):
         complete = True
         alts = [[]]
         notes = []
+        S.path_blocks = set(path)
         try:
             for s_, t_ in zip(path, path[1:]):
                 for fct in conds.edge_facts(b, s_, t_):
@@ -957,7 +1157,9 @@ def run_update(ctx, a, rule="R09.12"):
             extra = [sym("HASOLD") - Lin(const=has_old), Lin(const=has_old) - sym("HASOLD")]
             seq = []
             und = None
+            refills = []
             for (ev, count, payload, vl) in ems:
+                refills += refill_checks_for(S, a, ev, count, payload, cur)
                 seq.append(ev + ("" if isinstance(count, Lin) and count == ONE else " x n"))
                 if ev in ("PushFront", "PushBack", "Insert"):
                     cur = ("add", cur, count)
@@ -1027,6 +1229,16 @@ def run_update(ctx, a, rule="R09.12"):
                             guards.append("%s%s%s" % (_tfmt(ta), {"Lt": "<", "Le": "<=", "Gt": ">", "Ge": ">=", "Eq": "==", "Ne": "!="}[fct[1]], _tfmt(tb)))
                         except Unknown:
                             pass
+            if verdict == "HOLDS" and refills:
+                info_ = {"S": S, "symbols": {"N", "O", lsym, "HASOLD"}, "alts": [bs + extra for bs in alts], "base": base, "complete": complete,
+                         "refill": refills, "idx": [], "run": []}
+                st_, det_ = check_prefixes(a, b, [("HOLDS", path, "", info_)], "refill")
+                if st_ == "VIOLATED":
+                    refill_viol.append((path, det_, ",".join(seq)))
+                elif st_ == "UNDECIDED":
+                    refill_und.append(det_)
+                elif st_ == "HOLDS":
+                    refill_ok[0] += 1
             direction = "first" if not has_old else "any"
             if has_old and verdict == "VIOLATED":
                 cons_any = [c_ for bs in alts[:1] for c_ in bs]
@@ -1050,6 +1262,13 @@ def run_update(ctx, a, rule="R09.12"):
         ctx.undecided(rule, f, "view-length:update", where, "; ".join(sorted({r[2] for r in und}))[:300])
     elif not viol:
         ctx.holds(rule, f, "view-length:update", where, "%d path(s): view_old(N) + effects of the returned diffs = view_new(N) in every feasible case" % len(results))
+    if refill_viol:
+        path, det_, seq_ = refill_viol[0]
+        ctx.violated("R09.15", f, "refill-position:update|%s" % seq_, b.line_at((path[-2] if len(path) > 1 else path[-1], 0)), "%s `%s`: %s" % (a.name, f.name, det_))
+    elif refill_und:
+        ctx.undecided("R09.15", f, "refill-position:update", where, refill_und[0][:200])
+    elif refill_ok[0]:
+        ctx.holds("R09.15", f, "refill-position:update", where, "%d refilling path(s): the items come from the buffer positions adjacent to the old view" % refill_ok[0])
     return len(results)
 
 
